@@ -185,30 +185,31 @@ func ruleTableEscape(p *Prog, r *Report) {
 			okIdx := isRangeIndex(rangeElem.Index)
 			// a Replace call whose old/new operands are components 0/1 of the element and whose subject is the accumulator
 			okRepl := false
+			var replCall *ssa.Call
+			comp := func(v ssa.Value) int64 {
+				u, ok := v.(*ssa.UnOp)
+				if !ok {
+					if ix, ok := v.(*ssa.Index); ok {
+						if k, isK := constInt(ix.Index); isK {
+							return k
+						}
+					}
+					return -1
+				}
+				ia, ok := u.X.(*ssa.IndexAddr)
+				if !ok {
+					return -1
+				}
+				k, isK := constInt(ia.Index)
+				if !isK {
+					return -1
+				}
+				return k
+			}
 			eachInstr(fn, func(b *ssa.BasicBlock, in ssa.Instruction) {
 				c, ok := in.(*ssa.Call)
 				if !ok || !isCallTo(&c.Call, "bytes.Replace", "bytes.ReplaceAll", "strings.Replace", "strings.ReplaceAll") {
 					return
-				}
-				comp := func(v ssa.Value) int64 {
-					u, ok := v.(*ssa.UnOp)
-					if !ok {
-						if ix, ok := v.(*ssa.Index); ok {
-							if k, isK := constInt(ix.Index); isK {
-								return k
-							}
-						}
-						return -1
-					}
-					ia, ok := u.X.(*ssa.IndexAddr)
-					if !ok {
-						return -1
-					}
-					k, isK := constInt(ia.Index)
-					if !isK {
-						return -1
-					}
-					return k
 				}
 				if comp(c.Call.Args[1]) == 0 && comp(c.Call.Args[2]) == 1 {
 					// accumulator: result flows back into the subject through a phi
@@ -216,11 +217,67 @@ func ruleTableEscape(p *Prog, r *Report) {
 						for _, e := range ph.Edges {
 							if e == ssa.Value(c) || phiChainReaches(e, ph) || backwardSlice(fn, e)[c] {
 								okRepl = true
+								replCall = c
 							}
 						}
 					}
 				}
 			})
+			// no iteration skips its pair: every path from the element load back to the loop header passes through the Replace,
+			// except over an edge that established that the running result does not contain the pattern (Count(...) == 0)
+			if okIdx && okRepl && replCall != nil {
+				hdr := innermostLoopHeader(rangeElem.Block())
+				justified := func(from *ssa.BasicBlock, si int) bool {
+					ifi, ok := from.Instrs[len(from.Instrs)-1].(*ssa.If)
+					if !ok {
+						return false
+					}
+					ng := normGuard(guard{ifi.Cond, si == 0})
+					bo, ok := ng.Cond.(*ssa.BinOp)
+					if !ok {
+						return false
+					}
+					k, isK := constInt(bo.Y)
+					cnt, isCall := bo.X.(*ssa.Call)
+					if !isK || k != 0 || !isCall || !isCallTo(&cnt.Call, "bytes.Count", "strings.Count") {
+						return false
+					}
+					zero := bo.Op == token.EQL && ng.Pol || (bo.Op == token.NEQ || bo.Op == token.GTR) && !ng.Pol
+					return zero && comp(cnt.Call.Args[1]) == 0 && cnt.Call.Args[0] == replCall.Call.Args[0]
+				}
+				skipped := false
+				if hdr != nil {
+					seen := map[*ssa.BasicBlock]bool{rangeElem.Block(): true}
+					work := []*ssa.BasicBlock{rangeElem.Block()}
+					for len(work) > 0 && !skipped {
+						b := work[len(work)-1]
+						work = work[:len(work)-1]
+						if b == replCall.Block() {
+							continue
+						}
+						for si, sc := range b.Succs {
+							if justified(b, si) {
+								continue
+							}
+							if sc == hdr {
+								skipped = true
+								break
+							}
+							if !seen[sc] {
+								seen[sc] = true
+								work = append(work, sc)
+							}
+						}
+					}
+				}
+				if hdr == nil {
+					r.Unknown(rule, "mxj.escapeChars", "every pair applied", p.Pos(fn.Pos()), "loop header of the table range not found")
+				} else if skipped {
+					r.Bad(rule, "mxj.escapeChars", "every pair applied", p.Pos(replCall.Pos()), "an iteration can reach the next table entry without replacing the current pattern although the text may contain it")
+				} else {
+					r.OK(rule, "mxj.escapeChars", "every pair applied", p.Pos(replCall.Pos()), "every iteration passes through the Replace call unless the running text does not contain the pattern")
+				}
+			}
 			if okIdx && okRepl {
 				r.OK(rule, "mxj.escapeChars", "applies the table in order", p.Pos(fn.Pos()), "ascending range over the table, each pair applied to the running result")
 			} else {
@@ -677,52 +734,196 @@ func ruleTablePartition(p *Prog, r *Report) {
 		r.Bad(rule, p.Name(fn), "two key scans", p.Pos(fn.Pos()), "the two scans range over different maps")
 		return
 	}
-	atoms := func(l mapLoop) (map[string]bool, bool) {
-		out := map[string]bool{}
+	// The two scans must classify every key the same way. Each scan's key tests are read as a boolean function of normalised
+	// atoms (only `<` and `==`, operands in canonical form with the loop key written KEY): starting at the loop body the branch
+	// structure is followed for every assignment of the atoms until a block that is not a key test is reached; reaching the loop
+	// header means "this key is skipped". A key is an attribute iff the first scan does not skip it, and the second scan must
+	// skip exactly those keys (and the text key).
+	type scanFn struct {
+		atoms    []string
+		eval     func(assign map[string]bool) (skipped bool, ok bool)
+		textSkip bool
+	}
+	build := func(l mapLoop) *scanFn {
 		var key ssa.Value
+		var okFlag ssa.Value
 		for _, ref := range *l.next.Referrers() {
-			if ex, ok := ref.(*ssa.Extract); ok && ex.Index == 1 {
-				key = ex
+			if ex, isEx := ref.(*ssa.Extract); isEx {
+				switch ex.Index {
+				case 0:
+					okFlag = ex
+				case 1:
+					key = ex
+				}
 			}
 		}
-		if key == nil {
-			return out, false
+		if key == nil || okFlag == nil {
+			return nil
 		}
 		kc := cz.of(key)
-		textSkip := false
+		sf := &scanFn{}
+		norm := func(cond ssa.Value) (string, bool, bool) { // atom, polarity, isKeyAtom
+			ng := normGuard(guard{cond, true})
+			bo, isBo := ng.Cond.(*ssa.BinOp)
+			if !isBo {
+				return "", false, false
+			}
+			x, y := strings.ReplaceAll(cz.of(bo.X), kc, "KEY"), strings.ReplaceAll(cz.of(bo.Y), kc, "KEY")
+			if !strings.Contains(x+y, "KEY") && !strings.Contains(x+y, "AttrPrefix") && !strings.Contains(x+y, "attrPrefix") {
+				return "", false, false
+			}
+			pol := ng.Pol
+			var atom string
+			switch bo.Op {
+			case token.LSS:
+				atom = x + " < " + y
+			case token.GTR:
+				atom = y + " < " + x
+			case token.LEQ:
+				atom, pol = y+" < "+x, !pol
+			case token.GEQ:
+				atom, pol = x+" < "+y, !pol
+			case token.EQL, token.NEQ:
+				if x > y {
+					x, y = y, x
+				}
+				atom = x + " == " + y
+				if bo.Op == token.NEQ {
+					pol = !pol
+				}
+			default:
+				return "", false, false
+			}
+			return atom, pol, true
+		}
+		// body entry: the successor of the header taken when the iterator delivered a pair
+		var entry *ssa.BasicBlock
+		if ifi, isIf := l.header.Instrs[len(l.header.Instrs)-1].(*ssa.If); isIf && normGuard(guard{ifi.Cond, true}).Cond == okFlag {
+			entry = l.header.Succs[0]
+		}
+		if entry == nil {
+			return nil
+		}
+		seenAtom := map[string]bool{}
 		for b := range l.body {
-			ifi, ok := b.Instrs[len(b.Instrs)-1].(*ssa.If)
-			if !ok {
-				continue
+			if ifi, isIf := b.Instrs[len(b.Instrs)-1].(*ssa.If); isIf {
+				if a, _, isKey := norm(ifi.Cond); isKey {
+					if strings.Contains(a, "load(mxj.textK)") {
+						sf.textSkip = true
+						continue
+					}
+					if !seenAtom[a] {
+						seenAtom[a] = true
+						sf.atoms = append(sf.atoms, a)
+					}
+				}
 			}
-			c := cz.of(ifi.Cond)
-			if !strings.Contains(c, kc) {
-				continue
-			}
-			c = strings.ReplaceAll(c, kc, "KEY")
-			if strings.Contains(c, "load(mxj.textK)") {
-				textSkip = true
-				continue
-			}
-			out[c] = true
 		}
-		return out, textSkip
-	}
-	a1, _ := atoms(scans[0])
-	a2, textSkip := atoms(scans[1])
-	ks := func(m map[string]bool) []string {
-		var o []string
-		for k := range m {
-			o = append(o, k)
+		sort.Strings(sf.atoms)
+		sf.eval = func(assign map[string]bool) (bool, bool) {
+			b := entry
+			for steps := 0; steps < 64; steps++ {
+				if b == l.header {
+					return true, true
+				}
+				if !l.body[b] {
+					return false, false // left the loop: an error return, not a classification
+				}
+				last := b.Instrs[len(b.Instrs)-1]
+				switch t := last.(type) {
+				case *ssa.If:
+					a, pol, isKey := norm(t.Cond)
+					if !isKey {
+						return false, true
+					}
+					if strings.Contains(a, "load(mxj.textK)") {
+						// classify keys other than the text key: take the "not equal" edge
+						if pol {
+							b = b.Succs[1]
+						} else {
+							b = b.Succs[0]
+						}
+						continue
+					}
+					v, have := assign[a]
+					if !have {
+						return false, false
+					}
+					if v == pol {
+						b = b.Succs[0]
+					} else {
+						b = b.Succs[1]
+					}
+				case *ssa.Jump:
+					// a block that only forwards (or only evaluates operands of the next test) is passed through
+					pure := true
+					for _, in := range b.Instrs[:len(b.Instrs)-1] {
+						switch in.(type) {
+						case *ssa.Store, *ssa.MapUpdate, ssa.CallInstruction:
+							if c, isCall := in.(*ssa.Call); isCall {
+								if _, isBi := c.Call.Value.(*ssa.Builtin); isBi {
+									continue
+								}
+							}
+							pure = false
+						}
+					}
+					if !pure {
+						return false, true
+					}
+					b = b.Succs[0]
+				default:
+					return false, true
+				}
+			}
+			return false, false
 		}
-		sort.Strings(o)
-		return o
+		return sf
 	}
-	if strings.Join(ks(a1), " && ") == strings.Join(ks(a2), " && ") && len(a1) > 0 {
-		r.OK(rule, p.Name(fn), "attribute predicate agrees between the scans", p.Pos(fn.Pos()), "both scans test "+strings.Join(ks(a1), " && "))
+	s1, s2 := build(scans[0]), build(scans[1])
+	if s1 == nil || s2 == nil {
+		r.Unknown(rule, p.Name(fn), "attribute predicate agrees between the scans", p.Pos(fn.Pos()), "the key tests of a scan could not be read")
+		return
+	}
+	textSkip := s2.textSkip
+	if strings.Join(s1.atoms, " ; ") != strings.Join(s2.atoms, " ; ") || len(s1.atoms) == 0 || len(s1.atoms) > 6 {
+		r.Bad(rule, p.Name(fn), "attribute predicate agrees between the scans", p.Pos(fn.Pos()), fmt.Sprintf("attribute scan tests %v, element scan tests %v: a key can be emitted twice or dropped", s1.atoms, s2.atoms))
 	} else {
-		r.Bad(rule, p.Name(fn), "attribute predicate agrees between the scans", p.Pos(fn.Pos()), fmt.Sprintf("attribute scan tests %v, element scan tests %v: a key can be emitted twice or dropped", ks(a1), ks(a2)))
+		na := len(s1.atoms)
+		agree, nAttr := true, 0
+		bad := ""
+		for m := 0; m < 1<<na; m++ {
+			assign := map[string]bool{}
+			for i, a := range s1.atoms {
+				assign[a] = m&(1<<i) != 0
+			}
+			sk1, ok1 := s1.eval(assign)
+			sk2, ok2 := s2.eval(assign)
+			if !ok1 || !ok2 {
+				agree = false
+				bad = fmt.Sprintf("classification not readable for %v", assign)
+				break
+			}
+			if !sk1 {
+				nAttr++
+			}
+			if sk1 == sk2 {
+				agree = false
+				bad = fmt.Sprintf("for %v the attribute scan %s the key and the element scan %s it", assign, map[bool]string{true: "skips", false: "takes"}[sk1], map[bool]string{true: "skips", false: "takes"}[sk2])
+				break
+			}
+		}
+		if agree && nAttr > 0 && nAttr < 1<<na {
+			r.OK(rule, p.Name(fn), "attribute predicate agrees between the scans", p.Pos(fn.Pos()), fmt.Sprintf("both scans read the atoms %s; for all %d truth assignments the element scan skips exactly the keys the attribute scan takes", strings.Join(s1.atoms, " ; "), 1<<na))
+		} else {
+			if bad == "" {
+				bad = "one of the scans classifies every key the same way"
+			}
+			r.Bad(rule, p.Name(fn), "attribute predicate agrees between the scans", p.Pos(fn.Pos()), bad+": a key can be emitted twice or dropped")
+		}
 	}
+	ks := func(m []string) []string { return m }
+	a1 := s1.atoms
 	if textSkip {
 		r.OK(rule, p.Name(fn), "text key skipped in the element scan", p.Pos(fn.Pos()), "the element scan tests the key against textK")
 	} else {
